@@ -630,7 +630,28 @@ Fixpoint c19_walk (k : Z) (pend : list (Z * smsg)) (es : list event) (os : list 
       end
   | _, _ => []
   end.
-Definition check_C19 := failing (fun c => c19_walk 0 [] (cs_events c) (cs_obs c)).
+(* 26 a record of the implementation's OWN state that is pending without recipients after an end-block and was created
+      before the round that is ending is not among the NFTs presented to the feeders (the sources of the stored round
+      info) under its stored identity: chain id, contract, token - two records for one contract and token on different
+      chains are two NFTs.  (The settlement end-block runs after the oracle's and only removes records: what is pending
+      afterwards was pending when the sources were listed.) *)
+Fixpoint c19_sources (o : ostate) (k : Z) (os : list iobs) : list (Z * Z) :=
+  match os with
+  | [] => []
+  | ob :: os' =>
+      (match ob with
+       | IEnd COk _ (Some sn) =>
+           match sn_round sn with
+           | Some (_, _, _, src) =>
+               let want := rd_sources (next_round o (sn_s sn) (sn_h sn)) in
+               if forallb (fun n => existsb (fun x => option_eqb nft_eqb x (Some n)) (map parse_nft_id src)) want
+               then [] else [(k, 26)]
+           | None => []
+           end
+       | _ => []
+       end) ++ c19_sources o (k + 1) os'
+  end.
+Definition check_C19 := failing (fun c => c19_walk 0 [] (cs_events c) (cs_obs c) ++ c19_sources (c_o (cs_init c)) 0 (cs_obs c)).
 
 (* ---------- C06: panics observed on the implementation ----------
    80 a transaction ended with the SDK panic error (a handler panicked and baseapp recovered)
